@@ -137,7 +137,16 @@ def main(tier, seed):
             w += '\n'
         pats.append((names[0], w))
     las = [gen_la(rng) for _ in range(n // 2)]
+    # libtool archives as libtool writes them: the dlname is a shared-object file name (letters, digits, '_', '.', '+', '-')
+    real_dl = ['libgdk_pixbuf-2.0.so.0', 'libstdc++.so.6', 'libfoo.so', 'libFoo_Bar-1.2.so.0.300.1', 'lib_x.so', 'libz.so.1'] + \
+              ['lib' + ''.join(rng.choice('abcXYZ019_.+-') for _ in range(rng.randint(1, 10))) + '.so' for _ in range(20 if tier == 'quick' else 300)]
+    n_las = len(las)
+    las += ["# libfoo.la - a libtool library file\n# Generated by libtool\n\n# The name that we can dlopen(3).\ndlname='%s'\n\n"
+            "# Names of this library.\nlibrary_names='%s %s'\n\nlibdir='/usr/lib'\n" % (d, d, d.split('.so')[0] + '.so') for d in real_dl]
     res, pres, lres, bres = run_impl(cases, pats, las)
+    for d, (field, shlib) in zip(real_dl, lres[n_las:]):
+        if shlib != d:
+            ck.failing_input('a libtool archive does not resolve to its dlname', dict(dlname=d), detail=dict(dlname_field=field, resolved=shlib))
 
     if not proved:
         # the model may be unusable; still look for a concrete failing input with the spec below
